@@ -1,6 +1,6 @@
 (* C13 - refused or failing operations do not corrupt the tree.
    Statements only; proofs are in theories/Mut/RefusalC13.v (single-phase
-   operations), RefusalMulti.v (add(tree), copy_to) and Faults.v (escaped
+   operations), RefusalMulti.v (add(tree), copy_to), C13Summary.v and Faults.v (escaped
    callback exceptions, read-only copies) - all about the mutation machine
    theories/Mut/Machine.v, which harness/props/C13.py ties to the
    implementation after every step of every generated history.
@@ -19,7 +19,7 @@
    node registry, clone index.  [WFw] is the C01-C03 invariant.  [rows 0 f] is
    the pre-order list of (parent id, node id, payload) of a forest. *)
 From Coq Require Import List ZArith Bool Arith Permutation.
-From NT Require Import Sx Rose Surgery SurgeryFacts Machine WF RefusalC13 RefusalMulti Faults.
+From NT Require Import Sx Rose Surgery SurgeryFacts Machine WF RefusalC13 RefusalMulti Faults C13Summary.
 Import ListNotations.
 
 (* ================= refusal ================= *)
@@ -30,6 +30,20 @@ Theorem C13_refusal : forall w o e,
   sx_world (snd (step w o)) = sx_world w.
 Proof. intros w o e H E L. apply trees_sx_world. exact (refusal_all w o e H E L). Qed.
 Print Assumptions C13_refusal.
+
+(* what is left behind: the same trees, a well-formed world, an allocator that only moved forward *)
+Theorem C13_refusal_summary : forall w o e,
+  WFw w -> fst (step w o) = Err e -> library_error e = true ->
+  trees (snd (step w o)) = trees w /\ next w <= next (snd (step w o)) /\ WFw (snd (step w o)).
+Proof. exact refusal_summary. Qed.
+Print Assumptions C13_refusal_summary.
+
+(* no hypothesis left: every world that ANY history of operations reaches from the empty world *)
+Theorem C13_refusal_reachable : forall ops o e,
+  fst (step (run ops empty_world) o) = Err e -> library_error e = true ->
+  sx_world (run (ops ++ [o]) empty_world) = sx_world (run ops empty_world).
+Proof. exact refused_step_invisible. Qed.
+Print Assumptions C13_refusal_reachable.
 
 (* stronger for every operation that validates in one phase (all but add(tree) and
    copy_to(add_self=False)): ANY world, well-formed or not *)
@@ -140,6 +154,13 @@ Proof. exact copy_to_source_pure. Qed.
 Print Assumptions C13_copy_to_source_pure.
 
 (* ================= non-vacuity ================= *)
+(* the error classes, numbered as harness/common.py err_class (mut.LIB_ERRORS = 1 2 3 5) *)
+Example C13_library_error_classes :
+  map library_error [EUnique; EAmbiguous; EValue; EKey; ENotImpl; EAssert; EType; ECrash; EModel]
+  = [true; true; true; false; true; false; false; false; false]
+  /\ [EUnique; EAmbiguous; EValue; EKey; ENotImpl; EAssert; EType; ECrash] = [1; 2; 3; 4; 5; 6; 7; 8].
+Proof. split; reflexivity. Qed.
+
 Definition c13_dd (z : Z) : dat := D z z z true [z].
 Definition c13_w : world :=
   run [ONewTree false None;
